@@ -500,6 +500,7 @@ func cronStandbyCheck(res *Result) {
 func runCron(ctx *RunCtx) *Result {
 	res := NewResult()
 	cronStandbyCheck(res)
+	cronStartupCheck(res)
 	p := NewPRNG(ctx.Seed)
 	tzs := tzChoices()
 	var timeouts int
